@@ -25,7 +25,7 @@ pub mod c19;
 pub mod fmode;
 pub mod c20;
 
-#[derive(Default, Clone, Debug)]
+#[derive(Default, Clone, Debug, serde::Serialize, serde::Deserialize)]
 pub struct CheckOut {
     pub violations: Vec<Violation>,
     /// the system under test did real work in this run
